@@ -71,13 +71,20 @@ structure CpOK (cfg : Cfg) (s : State) (cp : Checkpoint) (m : Nat) : Prop where
   mark : m ≤ s.nextId
   older : ∀ b ∈ s.live, b.id < m → 0 < b.size → Mem.PlacedAt cfg s cp b.addr b.size
 
+/-- the chunk a `BumpAlignGuard` recorded when it was created (`Frame.alignedLower _ start`): the arena was
+    unallocated (or the claimed dummy) at that moment, or `start` names a chunk that still exists (chunks are
+    only appended while a region is open: `reset`, `drop` and `with_settings` need exclusive access) -/
+def StartOK (s : State) : Cur → Prop
+  | .chunk j => ∃ c : Chunk, s.chunks[j]? = some c
+  | _ => True
+
 /-- well-formedness of the open regions (innermost first) against the marks of the scope-like ones and
     the minimum alignment in force inside the innermost region -/
 def FramesOK (cfg : Cfg) (s : State) : Nat → List Frame → List Nat → Prop
   | _, [], [] => True
   | ma, .scope cp :: fs, m :: ms => CpOK cfg s cp m ∧ FramesOK cfg s ma fs ms
   | _, .scopedAligned cp outer :: fs, m :: ms => MinAlignOK outer ∧ CpOK cfg s cp m ∧ FramesOK cfg s outer fs ms
-  | _, .alignedLower outer :: fs, ms => MinAlignOK outer ∧ FramesOK cfg s outer fs ms
+  | _, .alignedLower outer start :: fs, ms => MinAlignOK outer ∧ StartOK s start ∧ FramesOK cfg s outer fs ms
   | ma, .alignedRaise outer :: fs, ms => MinAlignOK outer ∧ outer ≤ ma ∧ FramesOK cfg s outer fs ms
   | ma, .claim :: fs, ms => FramesOK cfg s ma fs ms
   | _, _, _ => False
